@@ -2,7 +2,8 @@
 import p_seqprops
 
 PROPS = ["C05"]
-PROFILES = [(3, {"kinds": {"comp": 1, "ping": 1, "timer": 6, "chan": 0.5}, "n_setup": (3, 7), "script_prob": 0.9, "stats_prob": 0.9}), (1, {})]
+PROFILES = [(3, {"kinds": {"comp": 1, "ping": 1, "timer": 6, "chan": 0.5}, "n_setup": (3, 7), "script_prob": 0.9, "stats_prob": 0.9}), (1, {}),
+            (1, {"kinds": {"compt": 4, "timer": 3, "ping": 1, "comp": 1}, "share_fd_prob": 0.0, "script_prob": 0.85, "stats_prob": 0.9, "err_ret_prob": 0.0})]
 
 
 def main(tier, seed):
